@@ -10,6 +10,8 @@ use crate::rng::Rng;
 #[derive(Clone, Debug, PartialEq)]
 pub enum AnyCheck {
     Prog(Check),
+    Tape(crate::tape::TapeCheck),
+    Svec(crate::svec::SvecCheck),
 }
 
 pub struct Checks {
@@ -21,6 +23,8 @@ impl AnyCheck {
     pub fn to_json(&self) -> Value {
         match self {
             AnyCheck::Prog(c) => c.to_json(),
+            AnyCheck::Tape(c) => c.to_json(),
+            AnyCheck::Svec(c) => c.to_json(),
         }
     }
 
@@ -28,6 +32,8 @@ impl AnyCheck {
         let kind = v.get("kind")?.as_str()?;
         match kind {
             _ if check::Kind::from_name(kind).is_some() => Check::from_json(v).map(AnyCheck::Prog),
+            "tape" => crate::tape::TapeCheck::from_json(v).map(AnyCheck::Tape),
+            "svec" => crate::svec::SvecCheck::from_json(v).map(AnyCheck::Svec),
             _ => None,
         }
     }
@@ -35,6 +41,8 @@ impl AnyCheck {
     pub fn prop(&self) -> &str {
         match self {
             AnyCheck::Prog(c) => &c.prop,
+            AnyCheck::Tape(c) => &c.prop,
+            AnyCheck::Svec(c) => &c.prop,
         }
     }
 
@@ -42,6 +50,8 @@ impl AnyCheck {
     pub fn signature(&self) -> String {
         match self {
             AnyCheck::Prog(c) => format!("{}/{}", c.kind.name(), c.case.backend.name()),
+            AnyCheck::Tape(c) => format!("tape/i{}", c.width),
+            AnyCheck::Svec(c) => format!("svec/N{}/{}", c.n, if c.tracked { "tracked" } else { "u32" }),
         }
     }
 
@@ -49,12 +59,16 @@ impl AnyCheck {
     pub fn shrink_candidates(&self) -> Vec<AnyCheck> {
         match self {
             AnyCheck::Prog(c) => crate::minimize::shrink_prog(c).into_iter().map(AnyCheck::Prog).collect(),
+            AnyCheck::Tape(c) => c.shrink_candidates().into_iter().map(AnyCheck::Tape).collect(),
+            AnyCheck::Svec(c) => c.shrink_candidates().into_iter().map(AnyCheck::Svec).collect(),
         }
     }
 
     pub fn primary_len(&self) -> usize {
         match self {
             AnyCheck::Prog(c) => c.case.program.chars().count(),
+            AnyCheck::Tape(c) => c.ops.len(),
+            AnyCheck::Svec(c) => c.ops.len(),
         }
     }
 
@@ -75,6 +89,24 @@ impl AnyCheck {
                 n.case.program = cand;
                 Some(AnyCheck::Prog(n))
             }
+            AnyCheck::Tape(c) => {
+                if start >= c.ops.len() {
+                    return None;
+                }
+                let end = (start + len).min(c.ops.len());
+                let mut n = c.clone();
+                n.ops.drain(start..end);
+                Some(AnyCheck::Tape(n))
+            }
+            AnyCheck::Svec(c) => {
+                if start >= c.ops.len() {
+                    return None;
+                }
+                let end = (start + len).min(c.ops.len());
+                let mut n = c.clone();
+                n.ops.drain(start..end);
+                Some(AnyCheck::Svec(n))
+            }
         }
     }
 
@@ -82,12 +114,23 @@ impl AnyCheck {
     pub fn size(&self) -> usize {
         match self {
             AnyCheck::Prog(c) => crate::minimize::prog_size(c),
+            AnyCheck::Tape(c) => c.size(),
+            AnyCheck::Svec(c) => c.size(),
         }
     }
 }
 
 pub fn make(prop: &str, rng: &mut Rng, env: &GenEnv) -> Checks {
     match prop {
+        "C09" => {
+            let n = 8;
+            let items = (0..n).map(|_| AnyCheck::Tape(crate::tape::generate(rng, prop))).collect();
+            Checks { items, family: "tape-histories".into() }
+        }
+        "C18" => {
+            let items = (0..16).map(|_| AnyCheck::Svec(crate::svec::generate(rng, prop))).collect();
+            Checks { items, family: "svec-histories".into() }
+        }
         _ => {
             let (items, family) = props::make_checks(prop, rng, env);
             Checks { items: items.into_iter().map(AnyCheck::Prog).collect(), family }
@@ -98,5 +141,7 @@ pub fn make(prop: &str, rng: &mut Rng, env: &GenEnv) -> Checks {
 pub fn evaluate(c: &AnyCheck) -> Verdict {
     match c {
         AnyCheck::Prog(c) => check::evaluate(c),
+        AnyCheck::Tape(c) => crate::tape::evaluate(c),
+        AnyCheck::Svec(c) => crate::svec::evaluate(c),
     }
 }
